@@ -392,6 +392,20 @@ class Unifier:
         if isinstance(v, ast.Call) and not shaped and not is_self(v.func):
             # a call that does not involve the block (clock, random, builtin): one scalar; the determinism rule judges it
             return ("scalar",)
+        # a data field written as the sum / difference of two stored attributes: the on-disk value is then neither attribute's value.
+        # The reference layout gives every field ONE meaning (BTS software reads the viewport's second pair as its size); a writer that
+        # stores a derived quantity - however consistently its own reader inverts it - writes other numbers than the object holds
+        ops = None
+        if isinstance(v, ast.BinOp) and isinstance(v.op, (ast.Add, ast.Sub)):
+            ops = (v.left, v.right)
+        elif isinstance(v, ast.Call) and norm(v.func) in ("np.add", "np.subtract", "numpy.add", "numpy.subtract") and len(v.args) == 2 and not v.keywords:
+            ops = tuple(v.args)
+        if ops and all(is_self(o) and isinstance(o, ast.Attribute) for o in ops) and norm(ops[0]) != norm(ops[1]):
+            from .report import DefiniteViolation
+            raise DefiniteViolation("layout-conformance", self.u.writer.module.path.name, self.u.writer.qualname, v,
+                                    f"the field is written as `{norm(v)}`, a combination of two stored attributes: the bytes on disk hold neither `{norm(ops[0])}` nor `{norm(ops[1])}` "
+                                    "but a derived quantity, which software that follows the layout reads as the field's own value",
+                                    construct=f"{self.u.writer.qualname} writes {norm(v)}", props=("C06",))
         raise AnalysisError(f"{self.u.name}: cannot classify written value `{norm(v)}` (codec {f.codec})")
 
     def inline_helper(self, call):
